@@ -22,10 +22,17 @@ def run(v):
     q = v.tier == "quick"
     cov = merge_cov(cov, run_tree_groups(v, SEED + 780, 10 if q else 50, 4 if q else 5, 1500 if q else 12000, ("alt",),
                                          cmdline_sig.signature, ledger_every=3 if q else 1, driver_n=4000 if q else 100000), "tree_groups")
+    # a positional item as one of the branches (`[--all | ID] [NAME]...`)
+    pfam = D.alt_pos_family(SEED + 790, 16 if q else 80, maxlen=3 if q else 4, budget=3000 if q else 30000)
+    pcov = run_cmdline_property(v, pfam, None, replay_cfg="MC_GroupLine_replay.cfg", module="MC_GroupLine", signature=cmdline_sig.signature,
+                                ledger_every=(3 if q else 1), trace_module="GroupLineTrace", name="C07p",
+                                driver={"defs": D.alt_pos_family(SEED + 1790, 24, maxlen=4, budget=10**9), "n": 5000 if q else 100000, "gen": gen})
+    cov = merge_cov(cov, pcov, "alt_pos")
     cov["rule"] = ("choices over 2..4 branches drawn from {req_flag, argument, two-item groups with optional members} under "
                    "bare/optional/many/some, next to other options and positionals; all lines up to maxlen in every order; "
                    "AltExclusive and the greedy-leftmost denotation checked/used by TLC (GroupLine.tla); subcommand "
-                   "alternatives are covered by the C08 families; the same choices inside a subcommand (TreeLine.tla)")
+                   "alternatives are covered by the C08 families; the same choices inside a subcommand (TreeLine.tla); "
+                   "choices with a positional branch (the word goes to the choice only when it wins, otherwise to the positionals that follow)")
     cov["exhaustive"] = True
     return v.finish("model_checking", cov, ["branches have disjoint names (the property's precondition)"])
 
